@@ -18,7 +18,7 @@ LEVEL = "exploration"
 SHARD_TIMEOUT = {"quick": 300, "thorough": 2400}
 
 LITERALS = ["a", "ab", "b", "v1.0"]
-PATHSEGS = ["a", "ab", "abc", "b", "v1.0", "v1x0", "x", ""]
+PATHSEGS = ["a", "ab", "abc", "b", "v1.0", "v1x0", "x", "", "%61", "a%2Fb"]   # (percent escapes are matched as received, never decoded)
 BOUNDS = {"quick": (3, 4), "thorough": (4, 5)}   # (max pattern segments, max path segments)
 
 MATCH, NOMATCH, UNSPEC = "match", "nomatch", "unspecified"
